@@ -549,6 +549,22 @@ def case_est(ctx, res, p):
                                 detail={"family": fam, "expected": want, "landmark_rows": lmr}, signature=sig)
             if gp in NYS:
                 res.oracle_fail("function estimator resolved to a Nystroem type", p, signature="C15:function-nystroem")
+    # ---------------- oracle 4b: a per-cell sigma is the noise of the cells for every number of landmarks (m < n, m = n,
+    # m > n): the configuration resolves exactly like the one with a scalar sigma (fixed defect 20d7957: the vector was
+    # sized by the landmarks and refused for m != n)
+    if est == "function" and p.get("sigma") == "vecN":
+        res.count("est:function_vector_sigma:" + ("no-landmarks" if p.get("lm") is None and p["nl"] is None else "landmarks"))
+        ref = run_estimator({**p, "sigma": "scalar"})
+        same = (out[0] == ref[0]) and (out[1:5] == ref[1:5] if out[0] == "ok" else reason_of(out[1]) == reason_of(ref[1]))
+        if out[0] == "ok":
+            res.count("est:function_vector_sigma_accepted:" + out[3] +
+                      ("" if out[4] is None else (":m<n" if out[4] < n else ":m=n" if out[4] == n else ":m>n")))
+        if not same:
+            show = lambda o: list(o[:5]) if o[0] == "ok" else [o[0], o[1][:100]]
+            res.oracle_fail("FunctionEstimator with a per-cell sigma vector does not resolve like the same configuration "
+                            "with a scalar sigma (type / predictor family / landmark rows / refusal)", p,
+                            detail={"vector": show(out), "scalar": show(ref)},
+                            signature="C15:function-vector-sigma-landmarks")
     # ---------------- oracle 5: a NumPy / JAX integer rank is the Python int of the same value
     if est != "function" and rank is not None and rank[0] == "NI":
         res.count("est:numpy_integer_rank:" + rank[2])
@@ -703,6 +719,12 @@ def run(ctx, res):
            est_cell("function", 6, 2, None, None, ["S", "full"]),
            est_cell("function", 6, None, 4, None, None, unc=True),
            est_cell("function", 6, None, 4, None, None, sigma="vecN"),
+           # per-cell sigma with landmarks (fixed defect 20d7957): sparse m < n, fixed m < n / m = n / m > n, k-means landmarks
+           est_cell("function", 6, None, 4, None, ["S", "fixed"], sigma="vecN"),
+           est_cell("function", 6, None, 6, None, ["S", "fixed"], sigma="vecN"),
+           est_cell("function", 6, None, 8, None, ["S", "fixed"], unc=True, sigma="vecN"),
+           est_cell("function", 12, 5, None, None, None, unc=True, sigma="vecN"),
+           est_cell("function", 12, None, 10, None, ["S", "sparse_cholesky"], sigma="vecN"),
            est_cell("function", 6, None, None, None, None, sigma="mat 2"),
            est_cell("density", 6, 1, None, None, None),
            est_cell("density", 6, 0, None, None, ["S", "fixed"]),
@@ -810,7 +832,9 @@ CLAIM = {
             "Tied to /repo by exhaustive function-level boundary grids and by fitting the estimators on the property's "
             "grid, with an independent rule/clean-failure oracle.",
     "note": "no_internal, rules, shape_promise and pred_matches_type are full-strength theorems for all four estimators "
-            "(after the repairs of the FunctionEstimator validation / noise-shape defects and of the negative-rank hole; the "
+            "(after the repairs of the FunctionEstimator validation / noise-shape defects and of the negative-rank hole; a "
+            "per-cell sigma vector is accepted with every number of landmarks and resolves like a scalar sigma - "
+            "function_sigma_form_irrelevant, signature C15:function-vector-sigma-landmarks, fixed defect 20d7957; the "
             "old witnesses are replayed as regression cases on every run; so are estimators with rank=np.int64 / np.int32 / "
             "np.uint8 / 0-d np / jnp integer arrays, compared with the run on the same Python int - signature "
             "C15:numpy-integer-rank, fixed defect 4604925). Nystroem column counts for fractional ranks are an input (C10).",
